@@ -19,7 +19,7 @@ def run(rep, tier):
     lib.proof_gate(rep, PROP, THEOREMS, IMPORTS)
     n = 400 if tier == "quick" else 120000
     n = rep.scale(n)
-    agg = runner.correspondence(rep, prop=PROP, mod_name="harness.mm", driver_kind="tree", ncases=n,
+    agg = runner.correspondence(rep, prop=PROP, mod_name="harness.mm", legal_only=True, driver_kind="tree", ncases=n,
                                 extra=("tree",), nontrivial=nontrivial, oracle_props={"C03"},
                                 sample_fmt=sample)
     rep.coverage.update(agg)
